@@ -45,6 +45,10 @@ def stages(tier):
              full_sessions(2, (16,), lambda b: (8, 16, 17, 64), (1, 3), 2))
     st.append(dict(label="B: complete sessions, bound 2", harness="h_session", variant="sched", configs=c, share=0.6, chunk=2,
                    what="every pair of deviations"))
+    st.append(dict(label="S: stream stage alone, deviation bound 2 and preemption bound 2", harness="h_stream", variant="sched",
+                   configs=S.stream_grid(2, 0) + S.stream_grid(2, 1) + ([] if quick else S.stream_grid(3, 0, 18)), share=0.3,
+                   what="bare UncompressedFile between a producer and a consumer for all (w,r,b,c) in {1..6}^4: the consumer must receive exactly the "
+                        "bytes written, in order, and end of stream only after the last"))
     if not quick:
         st.append(dict(label="C: bound 3 on the smallest sessions", harness="h_session", variant="sched", chunk=1,
                        configs=full_sessions(3, (64,), lambda b: (32, 64), (1,), 1, sizes=[48]) +
